@@ -98,7 +98,8 @@ let op_dsl_eval a =
   let (_, lines) = model_lines ast in
   List.iter emit lines
 
-let op_dsl_hostile a = emit (if str a "expect" "ok" = "crash" then "CRASH" else "hostile ok")
+let hostile_expected a = if str a "expect" "ok" = "crash" then "CRASH" else if has a "want" then "hostile " ^ str a "want" "ok" else "hostile ok"
+let op_dsl_hostile a = emit (hostile_expected a)
 let op_dsl_syntax a = emit (Printf.sprintf "syntax %s:%s" (str a "line" "0") (str a "col" "0"))
 
 (* oracle: the property evaluated on the IMPLEMENTATION's trace, case by case *)
@@ -131,7 +132,11 @@ let oracle_c15 script trace =
       end
     | Some ("dsl_hostile", a) ->
       let l = take () in
-      if l <> "hostile ok" then fail (Printf.sprintf "step=%d crash hostile tag=%s mode=%s impl=%s" li (str a "tag" "none") (str a "mode" "main") (List.hd (toks_of l)))
+      if is_bad_line l then fail (Printf.sprintf "step=%d crash hostile tag=%s mode=%s impl=%s" li (str a "tag" "none") (str a "mode" "main") (List.hd (toks_of l)))
+      else if has a "want" && l <> "hostile " ^ str a "want" "ok" then
+        fail (Printf.sprintf "step=%d hostile-outcome tag=%s want=%s got=%s" li (str a "tag" "none") (str a "want" "ok") l)
+      else if not (has a "want") && l <> "hostile ok" then
+        fail (Printf.sprintf "step=%d crash hostile tag=%s mode=%s impl=%s" li (str a "tag" "none") (str a "mode" "main") (List.hd (toks_of l)))
     | Some ("dsl_syntax", a) ->
       let l = take () in
       let want = Printf.sprintf "syntax %s:%s" (str a "line" "0") (str a "col" "0") in
